@@ -16,6 +16,8 @@ CONSTANTS
   PForms <- PfPlain
   Containers <- CtList
   OvKVals <- Ov3
+  SForms <- SfList
+  KeySortSeq <- SortId
   Configs <- CfgExtraT
   Comp <- CompDef
 INVARIANT FreeVsInlinedAgree
